@@ -149,4 +149,57 @@ theorem retype_applies (S : Schema) (ty0 : TypeId) (a0 : Attrs) (m0 : Marks) (K 
   rw [show b + fsize pre + (2 + fsize kidsN) = b + (fsize pre + (2 + fsize kidsN)) by omega, hrep]
   simp [Except.map]
 
+/-- **one whole child replaced by a closed one-node fragment** (the leaf branch of `set_node_markup`:
+    `replace_with(pos, pos + node_size, new_node)`): the request fits trivially — `fits_trivially` is the parent's
+    `can_replace(i, i + 1, [w])` — and the step applies -/
+theorem rechild_applies (S : Schema) (ty0 : TypeId) (a0 : Attrs) (m0 : Marks) (K : List Node)
+    (hv : S.checkNode (.elem ty0 a0 m0 K) = true) (hn : fnorm K = true)
+    {b nd : Nat} {tyP : TypeId} {ctx : List Node → List Node} {pre post : List Node} (c : Node)
+    (hl : Lvl ty0 K b nd tyP (pre ++ c :: post) ctx) (w : Node) (hwt : w.isText = false) (hwn : w.norm = true)
+    (hcr : S.canReplaceWith tyP (pre ++ c :: post) pre.length (pre.length + 1) (S.tyOf w) [] = some true)
+    (hm : (S.nodeType tyP).allowsMarks w.marks = true) :
+    fitsTriviallyO S (.elem ty0 a0 m0 K) (b + fsize pre) (b + fsize pre + c.size) ⟨[w], 0, 0⟩ = some true ∧
+    S.apply (.replace (b + fsize pre) (b + fsize pre + c.size) ⟨[w], 0, 0⟩ false) (.elem ty0 a0 m0 K)
+      = .ok (.elem ty0 a0 m0 (ctx (pre ++ w :: post))) := by
+  have hvK : S.validContent ty0 K = true ∧ S.checkKids K = true := by
+    simp only [checkNode_elem, Bool.and_eq_true] at hv
+    exact ⟨hv.1.1, hv.2⟩
+  obtain ⟨hvL, _, hnL⟩ := hl.valid hvK.1 hvK.2 hn
+  have hnk := fnormKids_of_fnorm hnL
+  simp only [fnormKids_append, fnormKids_cons, Bool.and_eq_true] at hnk
+  constructor
+  · -- fits trivially
+    obtain ⟨rs, hrs, ks, ts, is_, _, _, ss⟩ := resolve_at_boundary S ty0 a0 m0 hl hnk.1
+    have hl2 : Lvl ty0 K b nd tyP ((pre ++ [c]) ++ post) ctx := by simpa using hl
+    obtain ⟨re, hre, ke, te, ie, _, _, se⟩ := resolve_at_boundary S ty0 a0 m0 hl2
+      (by simp [fnormKids_append, hnk.1, hnk.2.1])
+    have e1 : b + fsize (pre ++ [c]) = b + fsize pre + c.size := by simp [fsize_append]; omega
+    rw [e1] at hre
+    simp only [fitsTriviallyO, hrs, hre, fitsTriviallyR, ss, se, beq_self_eq_true, Bool.and_self, if_true, is_, ie]
+    simp only [Schema.nodeCanReplace, ks, ts, List.length_append, List.length_cons, List.length_nil]
+    rw [if_neg (by omega)]
+    have := canReplace_of_with S tyP (pre ++ c :: post) pre.length (pre.length + 1) w (S.tyOf w) rfl hm hcr
+    simpa using this
+  · have hl3 : Lvl ty0 K b nd tyP (pre ++ [c] ++ post) ctx := by simpa using hl
+    have hnL3 : fnorm (pre ++ [c] ++ post) = true := by simpa using hnL
+    have hnew := fnorm_replace_run (w := w) hwt hwn hnL3
+    have hvrun : S.validContent tyP (pre ++ [w] ++ post) = true := by
+      have := valid_run_replaced S (.elem tyP [] [] (pre ++ [c] ++ post)) pre [c] post w (S.tyOf w) rfl
+        (by simpa [Schema.tyOf, Node.tyOr, Node.kids] using hvL)
+        (by
+          simp only [Schema.nodeCanReplaceWith, Node.kids, Schema.tyOf, Node.tyOr, List.length_append,
+            List.length_cons, List.length_nil]
+          rw [if_neg (by omega)]
+          simpa [Schema.tyOf, Node.tyOr] using hcr)
+        rfl (by simpa [Schema.tyOf, Node.tyOr] using hm)
+      simpa [Schema.tyOf, Node.tyOr] using this
+    have hrep := replaceKids_children' (S := S) hl3 [w]
+      (by simpa [fnorm, fnormKids, chainOk] using hwn) hnL3
+      (by rw [fromArray_of_fnorm hnew]; exact hvrun)
+    rw [fromArray_of_fnorm hnew] at hrep
+    simp only [fsize_cons, fsize_nil, Nat.add_zero] at hrep
+    simp only [Schema.apply, Bool.false_eq_true, if_false, Schema.fromReplace, Schema.replace]
+    rw [show b + fsize pre + c.size = b + (fsize pre + c.size) by omega, hrep]
+    simp [Except.map]
+
 end PM
